@@ -1,5 +1,6 @@
 import ParolModel.Proofs.LR
 import ParolModel.Proofs.LLSim
+import ParolModel.Model.LRComplete
 /-! Simulation lemmas for the LR parser model `lrRun` (C14, C17, C20 — LR halves).
 
 Structure: one iteration of `lrLoop` is the non-recursive function `lrStep` (`lrLoop_step`); with the
@@ -1155,5 +1156,225 @@ theorem lrRun_leaves (T : LRTables) (o : Opts) (fuel : Nat) (toks : List MTok)
     rw [hout, htrim]
     simp only [lrFinish, Bool.false_eq_true, if_false, hnil, lrDrain]
     simpa [ptEvents] using hl
+
+-- ---------------------------------------------------------------------------------------------
+-- no internal error for complete tables (C19)
+
+theorem mem_of_findGoto {row : LRRow} {a g : Nat} (h : findGoto row a = some g) : (a, g) ∈ row.gotos := by
+  simp only [findGoto, Option.map_eq_some_iff] at h
+  obtain ⟨⟨a', g'⟩, hfind, hg⟩ := h
+  simp only at hg; subst hg
+  have hmem := List.mem_of_find?_eq_some hfind
+  have hpred := List.find?_some hfind
+  simp only [beq_iff_eq] at hpred
+  subst hpred
+  exact hmem
+
+theorem lrAccOf_zero_none {T : LRTables} (h0 : (preds T 0).isEmpty = true) : lrAccOf T 0 = none := by
+  simp only [preds, List.isEmpty_iff, List.map_eq_nil_iff, List.filter_eq_nil_iff] at h0
+  simp only [lrAccOf, Option.map_eq_none_iff, List.find?_eq_none]
+  exact h0
+
+/-- With state 0 at the bottom (no incoming transition), a right-hand side that `backSpells` accepts
+    is never longer than the path. -/
+theorem Path.spells_len {T : LRTables} {final : Nat → Bool} (h0 : lrAccOf T 0 = none) :
+    ∀ (rr : List Sym) (q : Nat) (sts : List Nat) (syms : List Sym), Path T (q :: sts) syms →
+      (q :: sts).getLast? = some 0 → backSpells T final q rr = true → rr.length ≤ syms.length := by
+  intro rr
+  induction rr with
+  | nil => intros; simp
+  | cons X rest ih =>
+    intro q sts syms hp hb hbs
+    simp only [backSpells, Bool.and_eq_true, beq_iff_eq, List.all_eq_true] at hbs
+    obtain ⟨hacc, hall⟩ := hbs
+    cases hp with
+    | base s =>
+      simp only [List.getLast?_singleton, Option.some.injEq] at hb
+      subst hb
+      rw [h0] at hacc; cases hacc
+    | @step _ s rest' X' syms' hacc' hs hp' =>
+      have := ih s rest' syms' hp' (by simpa using hb) (hall s hs)
+      simp only [List.length_cons]; omega
+
+structure NIInv (T : LRTables) (c : LRCore) : Prop where
+  path : Path T c.states (c.items.map itemSym)
+  bottom : c.states.getLast? = some 0
+  top : ∃ cur rest, c.states = cur :: rest ∧ cur < T.rows.length
+
+def NIGood (T : LRTables) : CoreStepOut → Prop
+  | .next c' => NIInv T c'
+  | .stop _ r => r ≠ .internal
+  | .fin _ => True
+
+theorem coreGoto_next {T : LRTables} {c : LRCore} {n nt top g : Nat} {rest : List Nat}
+    (hd : c.states.drop n = top :: rest) (hg : (T.rows[top]?).bind (fun r => findGoto r nt) = some g) :
+    coreGoto T c n nt = .next { c with states := g :: top :: rest } := by
+  unfold coreGoto
+  have : ¬ c.states.length ≤ n := by
+    intro hle
+    rw [List.drop_eq_nil_of_le hle] at hd; cases hd
+  rw [if_neg this]
+  simp only [hd, hg]
+
+/-- The state after a successful `call_action`. -/
+def coreReduced (c : LRCore) (p : Nat) (pr : LRProd) : LRCore :=
+  { c with items := .nt pr.lhs :: c.items.drop pr.len,
+           actions := (p, (c.items.take pr.len).reverse) :: c.actions }
+
+theorem coreAction_some {T : LRTables} {c : LRCore} {p : Nat} {pr : LRProd} (hpr : T.prods[p]? = some pr)
+    (hlen : pr.len ≤ c.items.length) : coreAction T c p = some (coreReduced c p pr, pr.len) := by
+  unfold coreAction
+  simp only [hpr]
+  rw [if_neg (by omega)]
+  rfl
+
+theorem getLast?_drop_cons {l : List Nat} {n : Nat} {x : Nat} {rest : List Nat} (h : l.drop n = x :: rest) :
+    (x :: rest).getLast? = l.getLast? := by
+  have hl : l = l.take n ++ (x :: rest) := by rw [← h, List.take_append_drop]
+  calc (x :: rest).getLast? = (l.take n ++ (x :: rest)).getLast? := by
+        rw [List.getLast?_append]
+        cases hr : (x :: rest).getLast? with
+        | none => simp at hr
+        | some y => rfl
+    _ = l.getLast? := by rw [← hl]
+
+theorem coreAct_ni {T : LRTables} {gprods : List Rule} (hc : lrTableComplete T gprods = true) {c : LRCore}
+    (hinv : NIInv T c) : NIGood T (coreAct T c) := by
+  simp only [lrTableComplete, Bool.and_eq_true, decide_eq_true_eq] at hc
+  obtain ⟨⟨⟨hv, _h0⟩, hrange⟩, hgotos⟩ := hc
+  simp only [lrTableValid, Bool.and_eq_true, beq_iff_eq] at hv
+  obtain ⟨⟨⟨⟨hlen, hprods⟩, hacc⟩, hpred0⟩, hrows⟩ := hv
+  have hacc0 := lrAccOf_zero_none hpred0
+  obtain ⟨cur, sts, hst, hcur⟩ := hinv.top
+  have hpath : Path T (cur :: sts) (c.items.map itemSym) := by rw [← hst]; exact hinv.path
+  have hbot : (cur :: sts).getLast? = some 0 := by rw [← hst]; exact hinv.bottom
+  have hrow : T.rows[cur]? = some T.rows[cur] := List.getElem?_eq_getElem hcur
+  generalize T.rows[cur] = row at hrow
+  have hrowmem : (row, cur) ∈ T.rows.zipIdx := by
+    rw [List.mem_zipIdx_iff_getElem?]; simpa using hrow
+  have hrowmem' : row ∈ T.rows := List.mem_of_getElem? hrow
+  generalize hout : coreAct T c = out
+  unfold coreAct at hout
+  simp only [hst, hrow] at hout
+  cases hact : findAct row (nextTerm c.input) with
+  | none => simp only [hact] at hout; rw [← hout]; intro h; cases h
+  | some act =>
+    simp only [hact] at hout
+    have hactmem := mem_of_findAct hact
+    have hchk := (List.all_eq_true.1 ((List.all_eq_true.1 hrows) (row, cur) hrowmem)) _ hactmem
+    have hrng := (List.all_eq_true.1 hrange) row hrowmem'
+    simp only [Bool.and_eq_true, List.all_eq_true] at hrng
+    obtain ⟨hrng1, hrng2⟩ := hrng
+    have hgchk := (List.all_eq_true.1 ((List.all_eq_true.1 hgotos) (row, cur) hrowmem)) _ hactmem
+    cases act with
+    | shift next =>
+      simp only at hout hchk
+      have hnext := hrng1 _ hactmem
+      simp only [decide_eq_true_eq] at hnext
+      cases hin : c.input with
+      | nil =>
+        exfalso
+        rw [hin] at hchk
+        simp [nextTerm] at hchk
+      | cons t rest =>
+        simp only [hin] at hout
+        rw [← hout]
+        have hty : nextTerm c.input = t.ty := by rw [hin]; rfl
+        obtain ⟨ha, hp⟩ := acc_of_edge hacc (edge_of_shift hrow hact)
+        rw [hty] at ha
+        exact ⟨by simpa [itemSym] using Path.step ha hp hpath, by simpa using hbot, next, cur :: sts, rfl, hnext⟩
+    | reduce nt p =>
+      simp only at hout hchk hgchk
+      cases hgr : gprods[p]? with
+      | none => simp [hgr] at hchk
+      | some r =>
+        simp only [hgr, Bool.and_eq_true, beq_iff_eq] at hchk hgchk
+        obtain ⟨hlhs, _⟩ := hchk
+        have hplt : p < T.prods.length := by
+          have := (List.getElem?_eq_some_iff.1 hgr).1; omega
+        have hpr : T.prods[p]? = some T.prods[p] := List.getElem?_eq_getElem hplt
+        generalize T.prods[p] = pr at hpr
+        have hzip := zip_all_get hprods hgr hpr
+        simp only [Bool.and_eq_true, beq_iff_eq] at hzip
+        obtain ⟨hl2, hlen2⟩ := hzip
+        have hrr := Path.spells_len hacc0 r.rhs.reverse cur sts _ hpath hbot hgchk
+        simp only [List.length_reverse, List.length_map] at hrr
+        obtain ⟨_, s2, sts', hdrop, hfin, hpath2⟩ :=
+          Path.spells r.rhs.reverse cur sts _ hpath hgchk (by simpa using hrr)
+        simp only [List.length_reverse] at hdrop hpath2
+        rw [hlen2] at hdrop hpath2 hrr
+        rw [coreAction_some hpr hrr] at hout
+        simp only at hout
+        simp only [hasGoto, Option.isSome_iff_exists] at hfin
+        obtain ⟨g, hg⟩ := hfin
+        have hdrop' : (coreReduced c p pr).states.drop pr.len = s2 :: sts' := by
+          simp only [coreReduced, hst]; exact hdrop
+        rw [coreGoto_next hdrop' hg] at hout
+        rw [← hout]
+        simp only [Option.bind_eq_some_iff] at hg
+        obtain ⟨row2, hrow2, hgoto⟩ := hg
+        obtain ⟨ha, hp⟩ := acc_of_edge hacc (edge_of_goto hrow2 hgoto)
+        have hg2 := (List.all_eq_true.1 hrange) row2 (List.mem_of_getElem? hrow2)
+        simp only [Bool.and_eq_true, List.all_eq_true] at hg2
+        have hglt := hg2.2 _ (mem_of_findGoto hgoto)
+        simp only [decide_eq_true_eq] at hglt
+        refine ⟨?_, ?_, g, s2 :: sts', rfl, hglt⟩
+        · simp only [coreReduced, List.map_cons, itemSym, List.map_drop]
+          rw [← hl2, hlhs]
+          exact Path.step ha hp hpath2
+        · have := getLast?_drop_cons hdrop
+          simp only [List.getLast?_cons_cons]
+          rw [this]; exact hbot
+    | accept =>
+      simp only at hout hchk
+      simp only [Bool.and_eq_true, beq_iff_eq] at hchk
+      obtain ⟨_, hchk⟩ := hchk
+      cases hp0 : T.prods.findIdx? (·.lhs == T.start) with
+      | none => simp [hp0] at hchk
+      | some p0 =>
+        simp only [hp0] at hout hchk
+        cases hgr : gprods[p0]? with
+        | none => simp [hgr] at hchk
+        | some r =>
+          simp only [hgr] at hchk
+          have hplt : p0 < T.prods.length := by
+            have := (List.getElem?_eq_some_iff.1 hgr).1; omega
+          have hpr : T.prods[p0]? = some T.prods[p0] := List.getElem?_eq_getElem hplt
+          generalize T.prods[p0] = pr at hpr
+          have hzip := zip_all_get hprods hgr hpr
+          simp only [Bool.and_eq_true, beq_iff_eq] at hzip
+          obtain ⟨_, hlen2⟩ := hzip
+          have hrr := Path.spells_len hacc0 r.rhs.reverse cur sts _ hpath hbot hchk
+          simp only [List.length_reverse, List.length_map] at hrr
+          rw [hlen2] at hrr
+          rw [coreAction_some hpr hrr] at hout
+          rw [← hout]
+          trivial
+
+theorem coreStep_ni {T : LRTables} {gprods : List Rule} (hc : lrTableComplete T gprods = true) (md : Option Nat)
+    {c : LRCore} (hinv : NIInv T c) : NIGood T (coreStep T md c) := by
+  unfold coreStep
+  split
+  · intro h; cases h
+  · exact coreAct_ni hc ⟨hinv.path, hinv.bottom, hinv.top⟩
+
+theorem lrCoreRun_no_internal {T : LRTables} {gprods : List Rule} (hc : lrTableComplete T gprods = true)
+    (md : Option Nat) (fuel : Nat) (toks : List MTok) : (lrCoreRun T md fuel toks).res ≠ .internal := by
+  unfold lrCoreRun
+  have hnext : ∀ c c', NIInv T c → coreStep T md c = .next c' → NIInv T c' := by
+    intro c c' hi hst
+    have := coreStep_ni hc md hi
+    rw [hst] at this; exact this
+  have hrows : 0 < T.rows.length := by
+    simp only [lrTableComplete, Bool.and_eq_true, decide_eq_true_eq] at hc
+    exact hc.1.1.2
+  have h0 : NIInv T ⟨[0], toks, [], [], []⟩ := ⟨Path.base 0, rfl, 0, [], rfl, hrows⟩
+  rcases lrCore_reach T md (NIInv T) hnext fuel _ 0 h0 with hf | ⟨c0, c', k, hI, ⟨r, hst, hout⟩ | ⟨hst, hout⟩⟩
+  · rw [hf]; intro h; cases h
+  · rw [hout]
+    have := coreStep_ni hc md hI
+    rw [hst] at this
+    exact this
+  · rw [hout]; intro h; cases h
 
 end ParolModel
